@@ -32,17 +32,21 @@ pub struct Verdict {
 /// first surviving transmission leaves `threshold*drops` passes after the
 /// retransmit count started, its ACK is back `2*hold + 1` rounds later (at the
 /// end of that round), and the abort fires at the egress of pass
-/// `threshold*(max+1)`: `threshold*drops + 2*hold + 1 <= threshold*(max+1) - 1`.
+/// `threshold*(max+1)`. One further retransmit period is kept in reserve,
+/// because the stack itself may discard one transmission that the wire
+/// delivered (first flight beyond the receiver's real buffer, SYN counted one
+/// pass early, ...):
+/// `threshold*drops + 2*hold + 1 <= threshold*(max+1) - 1 - threshold`.
+/// Holds below `retx_threshold` are always inside (the rule validated first).
 pub fn max_hold_for(cfg: &Cfg, drops: u32) -> Option<u32> {
     if drops >= cfg.retx_max {
         return None;
     }
+    let floor = cfg.retx_threshold.saturating_sub(1);
     let abort = cfg.retx_threshold * (cfg.retx_max + 1);
-    let used = cfg.retx_threshold * drops + 2;
-    if used > abort {
-        return None;
-    }
-    Some((abort - used) / 2)
+    let used = cfg.retx_threshold * drops + 2 + cfg.retx_threshold;
+    let by_formula = if used > abort { 0 } else { (abort - used) / 2 };
+    Some(by_formula.max(floor))
 }
 
 pub fn in_envelope(scn: &Scn, drops: u32, max_hold: u32) -> bool {
@@ -344,6 +348,7 @@ pub fn minimise_with(scn: &Scn, fails: &dyn Fn(&Scn) -> bool, budget: usize) -> 
             Box::new(|s| s.c2s.explicit_shutdown = true),
             Box::new(|s| s.s2c.explicit_shutdown = true),
             Box::new(|s| s.cfg.v6 = false),
+            Box::new(|s| s.latency = 0),
         ];
         for t in [0usize, 1, 5, 40, 1000, 3000] {
             cands.push(Box::new(move |s| {
